@@ -247,3 +247,116 @@ def fetch_items(resp):
             k += 2
         return int(resp[1].val), d
     return None
+
+
+# ---------------------------------------------------------------- structure of ENVELOPE / BODYSTRUCTURE values (RFC 3501 section 9)
+def _is_nil(x):
+    return isinstance(x, Tok) and x.kind == 'a' and x.val.upper() == b'NIL'
+
+
+def _is_string(x):
+    return isinstance(x, Tok) and x.kind in ('q', 'l')
+
+
+def _is_nstring(x):
+    return _is_nil(x) or _is_string(x)
+
+
+def _is_number(x):
+    return isinstance(x, Tok) and x.kind == 'a' and x.val.isdigit()
+
+
+def envelope_problem(v):
+    """None if v is an `envelope`; otherwise what is wrong with it"""
+    if not isinstance(v, list) or len(v) != 10:
+        return f'envelope is not a list of 10 fields: {v!r}'
+    for k in (0, 1, 8, 9):
+        if not _is_nstring(v[k]):
+            return f'envelope field {k} is not an nstring: {v[k]!r}'
+    for k in range(2, 8):
+        if _is_nil(v[k]):
+            continue
+        if not isinstance(v[k], list) or not v[k]:
+            return f'envelope address field {k} is neither NIL nor a non-empty list (env-xxx = "(" 1*address ")" / nil): {v[k]!r}'
+        for a in v[k]:
+            if not isinstance(a, list) or len(a) != 4 or not all(_is_nstring(x) for x in a):
+                return f'envelope address is not four nstrings: {a!r}'
+    return None
+
+
+def _params_problem(x):
+    if _is_nil(x):
+        return None
+    if not isinstance(x, list) or not x or len(x) % 2 or not all(_is_string(t) for t in x):
+        return f'body-fld-param is neither NIL nor a non-empty list of string pairs: {x!r}'
+    return None
+
+
+def _ext_problem(rest, what):
+    """body-ext-1part/mpart after md5/params: [dsp [lang [loc *extension]]]"""
+    if rest:
+        d = rest[0]
+        if not _is_nil(d) and not (isinstance(d, list) and len(d) == 2 and _is_string(d[0]) and _params_problem(d[1]) is None):
+            return f'{what}: body-fld-dsp is neither NIL nor (string params): {d!r}'
+    if len(rest) > 1:
+        lang = rest[1]
+        if not _is_nstring(lang) and not (isinstance(lang, list) and lang and all(_is_string(t) for t in lang)):
+            return f'{what}: body-fld-lang is neither an nstring nor a non-empty list of strings: {lang!r}'
+    if len(rest) > 2 and not _is_nstring(rest[2]):
+        return f'{what}: body-fld-loc is not an nstring: {rest[2]!r}'
+    return None
+
+
+def body_problem(v, depth=0):
+    """None if v is a `body`; otherwise what is wrong with it"""
+    if not isinstance(v, list) or not v:
+        return f'body is not a non-empty list: {v!r}'
+    if depth > 400:
+        return None
+    if isinstance(v[0], list):
+        k = 0
+        while k < len(v) and isinstance(v[k], list):
+            p = body_problem(v[k], depth + 1)
+            if p:
+                return p
+            k += 1
+        if k >= len(v) or not _is_string(v[k]):
+            return f'multipart body: media subtype missing or not a string after {k} parts: {v[k:k + 1]!r}'
+        rest = v[k + 1:]
+        if rest:
+            p = _params_problem(rest[0])
+            if p:
+                return 'multipart ' + p
+        return _ext_problem(rest[1:], 'multipart body')
+    if len(v) < 7:
+        return f'single-part body has {len(v)} fields, at least 7 are required: {v!r}'
+    if not _is_string(v[0]) or not _is_string(v[1]):
+        return f'media type/subtype are not strings: {v[:2]!r}'
+    p = _params_problem(v[2])
+    if p:
+        return p
+    if not _is_nstring(v[3]) or not _is_nstring(v[4]):
+        return f'body-fld-id / body-fld-desc are not nstrings: {v[3:5]!r}'
+    if not _is_string(v[5]):
+        return f'body-fld-enc is not a string: {v[5]!r}'
+    if not _is_number(v[6]):
+        return f'body-fld-octets is not a number: {v[6]!r}'
+    k = 7
+    mt, st = v[0].val.upper(), v[1].val.upper()
+    if mt == b'MESSAGE' and st == b'RFC822' and len(v) > 7 and isinstance(v[7], list):
+        if len(v) < 10:
+            return f'message/rfc822 body lacks envelope, body and line count: {v[7:]!r}'
+        p = envelope_problem(v[7]) or body_problem(v[8], depth + 1)
+        if p:
+            return p
+        if not _is_number(v[9]):
+            return f'body-fld-lines is not a number: {v[9]!r}'
+        k = 10
+    elif mt == b'TEXT':
+        if len(v) < 8 or not _is_number(v[7]):
+            return f'text body: body-fld-lines is missing or not a number: {v[7:8]!r}'
+        k = 8
+    rest = v[k:]
+    if rest and not _is_nstring(rest[0]):
+        return f'body-fld-md5 is not an nstring: {rest[0]!r}'
+    return _ext_problem(rest[1:], 'single-part body')
